@@ -199,6 +199,28 @@ CHECKS = {
              "changes)."),
 }
 
+# rules added in the second and third seeding rounds (see DESIGN.md §6)
+ADDENDA = {
+    "C02": "A skeleton emitted k blocks deep must be the same statement list as at top level (indent uniformity); function names include code-page characters that are alphanumeric for \\w but not for a python identifier; STRING values cover the classes of the python literal grammar (x u U N after a backslash, raw CR) and every compression character alone / at the dictionary boundary positions.",
+    "C03": "Comment heads are discovered independently of the law checked on them; a result remembered in a module-level table must be keyed by every input it depends on (token kind included).",
+    "C05": "sympy.nsimplify on a digit string is exact only with rational=True and only for integers (known finding: the pinned integer template).",
+    "C06": "The writer's escaping call must not be limited by a count (re.sub's 4th positional argument); module-level memo tables must be keyed by the compression mode.",
+    "C07": "`//` and builtin divmod are not in the exact vocabulary (sympy Integer // Rational is off by one on negative integral quotients); int() only after an exact floor; arms are followed through delegation to another element's arm.",
+    "C08": "primitive_type / vy_type are interpreted once per class of sympy's numeric tower (Half, Zero, One, NegativeOne, Integer, Rational, irrational expression); a frozen instance may instead be a composition of vectorising functions; vy_zip may pad through a sentinel compared with `is`.",
+    "C09": "A Lambda structure of arity k announces `.arity = k` and grabs k arguments by default in its generated text.",
+    "C10": "A lazy wrapper (deep_copy, LazyList, iter, map, ...) of an interpreter-owned list is a live view until materialised; augmented assignment to a name is not an in-place change when a fresh definition dominates it.",
+    "C11": "The transition model ranges over the depths of the other bookkeeping lists that lambda / named-function scopes produce and stops if get_input reads an attribute it does not model; the scope pushed for a call must be a snapshot; pop / wrapify(x, n) / get_input are handed the running context at every call site in functions, templates and skeletons.",
+    "C12": "Vyxal functions are driven lazily only from generator frames (a builtin map/filter/itertools object takes a StopIteration escaping from the function for the end of its data); while an unprotected driver exists, every one-argument next() / raise StopIteration outside a generator is reported too.",
+    "C13": "The end of the list / an absent slice end is never inferred from a truth value; 'the source is exhausted here' is a must-analysis over the method's structure (not statement order); the constructor starts empty or replaces the source by an empty iterator.",
+    "C14": "The constructor does not consume its source; lazy views propagate through literal tuples; bounds and counts are recognised as numbers for every class of sympy's tower (no exact-class tests).",
+    "C15": "elements.to_base is interpreted (bounded: n <= base**3+1 and around base**k, k <= 40, nine bases) with a strict digit lookup; a numeric base is recognised for every number class.",
+    "C18": "uncompress's INT/STR summary is path-aware (an early return counts for every kind); re.sub limited by a count is not a sanitiser.",
+    "C19": "vy_eval is interpreted with ctx.online true on a marked text behind literal-looking prefixes, everything outside the package being a recorder: no evaluator sees the text, every callee may raise without vy_eval raising, rejected text comes back unchanged; functions that depend on the mode are handed the running context (never a module-level default, never by omission); an evaluator used as a value is a site; helpers that always exit are no-return.",
+    "C20": "Keys stay their own token after every class representative that is a complete token; character classes include the truth sets of str predicates the lexer calls; the tables are bound once to their literal and never written; program bytes reach vyxal_to_utf8 from a binary handle.",
+}
+for _k, _v in ADDENDA.items():
+    CHECKS[_k]["text"] += " " + _v
+
 NOT_APPLICABLE = {
     "C01": "equality of transpiled behaviour with the documented reference "
            "semantics for all programs x inputs relates two evaluators' "
